@@ -746,10 +746,16 @@ impl Future for ChildWrap {
 #[cfg(feature = "spawn")]
 impl Drop for ChildWrap {
     fn drop(&mut self) {
-        wwith(|w| {
+        let cancelled = wwith(|w| {
             let t = w.tasks.entry(self.tid).or_default();
             t.children_live -= 1;
+            t.cancelled
         });
+        // spawned work runs to completion unless its task is cancelled (C22: "spawned work
+        // finishes before exit"): nothing else may destroy it unfinished
+        if !self.inner.done && !cancelled {
+            violate("H-SPAWN", "spawn_local", format!("the future spawned as interpreter {} (task {}) was destroyed before it finished although its task was not cancelled", self.inner.iid, self.tid));
+        }
     }
 }
 
